@@ -1,13 +1,23 @@
 import eng_bitmap
 PID = "C03"
 LEAN_MODULE = "Hw.Props.C03"
-THEOREMS = []
-TRUSTED = []
+NS = "Hw.Props.C03."
+THEOREMS = [NS + t for t in """C03_step_refines C03_reachable_inv C03_isset C03_iszero C03_isfull C03_isequal C03_intersects
+C03_isincluded C03_first C03_next C03_last C03_first_unset C03_next_unset C03_last_unset C03_weight_infinite
+C03_weight_finite C03_inf_iff C03_to_ith_ulong C03_to_ulong C03_to_ulongs C03_nr_ulongs_infinite C03_nr_ulongs_empty
+C03_nr_ulongs_last C03_compare C03_repr_first C03_repr_next C03_repr_last C03_repr_first_unset C03_repr_next_unset
+C03_repr_last_unset C03_repr_inf C03_repr_to_ith_ulong C03_repr_weight C03_repr_iszero C03_repr_isfull
+C03_repr_isequal C03_repr_intersects C03_repr_isincluded""".split()]
+CHECK_MODULES = ["Hw.Props.C03"]
+TRUSTED = ["hwloc_ffsl = __builtin_ffsl and hwloc_weight_long = __builtin_popcountll are modelled by their specification (least set bit / number of set bits)"]
 ASSUMPTIONS = ["indexes and 64*ulongs_count below 2^31 (no C integer wrap); malloc never fails"]
-MODELLED = "modelled: every function of hwloc/bitmap.c lines 84-243, 741-1760; not modelled: allocation failure, ulongs_allocated"
+MODELLED = ("modelled representation-exactly: every function of hwloc/bitmap.c lines 84-243 and 741-1760; "
+            "not modelled: allocation failure, ulongs_allocated, HWLOC_DEBUG magic")
 
 def run_engines(tier, seed):
     return eng_bitmap.run_engine(tier, seed)
 
 def replay(path):
+    import sys
+    print(open(path).read())
     return 0
